@@ -63,7 +63,7 @@ for p in props:
 hook_commits = subprocess.run(["git", "-C", "/repo", "log", "--format=%H", "--grep=^verif hook"], capture_output=True, text=True).stdout.split()
 m = {
     "version": 1,
-    "setup_cmd": "cd /verif/harness && CARGO_NET_OFFLINE=true cargo build --profile chk && cd /verif && python3 -m vf.selftest",
+    "setup_cmd": "cd /verif/harness && CARGO_NET_OFFLINE=true cargo build --profile chk && CARGO_NET_OFFLINE=true cargo build --profile rel && cd /verif && python3 -m vf.selftest",
     "hooks": {
         "guard": "bsv_verif",
         "enable": "rustc --cfg bsv_verif, set only by /verif/harness/.cargo/config.toml ([build] rustflags) when the driver crate builds /repo as a path dependency",
